@@ -34,6 +34,7 @@ REVERTS = [
     ('F34-notation-flags', '5dece79', {'C05': ['S05-8:no-octet-collapsed-to-bool'], 'C02': ['S05-8:no-octet-collapsed-to-bool']}),
     ('F35-curve25519-legacy-padding', '771a89f', {'C05': ['S05-11:pad-before-reverse']}),
     ('F36-has-rest-stale-buffer', 'f8049aa', {'C16': ['S16-3:trailing-scan-only-read-octets']}),
+    ('F37-legacy-header-type-bits', 'a77db8e', {'C17': ['S17-7:legacy-header-type-from-value']}),
     ('F23-boolean-subpackets', '1b5ba7a', {'C05': ['S05-8:lossless-bool'], 'C02': ['S05-8:lossless-bool']}),
 ]
 tests = [dict(name='revert:' + n, kind='revert-fix', commit=c, expect=e) for n, c, e in REVERTS]
